@@ -163,7 +163,7 @@ func (c c17Rep) coq() string {
 		ms[i] = coqZ(int64(m))
 	}
 	return fmt.Sprintf("{| cr_id := %s; cr_target := %s; cr_reporter := %s; cr_summary := %s; cr_details := %s; cr_lfirst := %s; cr_llast := %s; cr_sev := %s; cr_anchor_before := %s; cr_modified := %s; cr_is_dup := %s |}",
-		coqN(c.ID), coqStr(c.Target), coqStr(c.Reporter), coqStr(c.Summary), coqStr(c.Details), coqZ(int64(c.First)), coqZ(int64(c.Last)),
+		coqN(c.ID), c17Str(c.Target), c17Str(c.Reporter), c17Str(c.Summary), c17Str(c.Details), coqZ(int64(c.First)), coqZ(int64(c.Last)),
 		coqZ(int64(c.Sev)), coqBool(c.Before), coqList(ms), coqBool(c.IsDup))
 }
 
@@ -298,13 +298,13 @@ func (t *textIDs) id(s string) int {
 func c17CoqStore(t *textIDs, cs []memComment) string {
 	out := make([]string, len(cs))
 	for i, c := range cs {
-		out[i] = fmt.Sprintf("{| mc_path := %s; mc_line := %s; mc_text := %s; mc_deletable := %s |}", coqStr(c.Path), coqZ(int64(c.Line)), coqN(t.id(c.Text)), coqBool(c.Deletable))
+		out[i] = fmt.Sprintf("{| mc_path := %s; mc_line := %s; mc_text := %s; mc_deletable := %s |}", c17Str(c.Path), coqZ(int64(c.Line)), coqN(t.id(c.Text)), coqBool(c.Deletable))
 	}
 	return coqList(out)
 }
 
 func c17CoqPending(t *textIDs, p memPending) string {
-	return fmt.Sprintf("{| mp_path := %s; mp_line := %s; mp_anchor_before := %s; mp_text := %s |}", coqStr(p.Path), coqZ(int64(p.Line)), coqBool(p.Before), coqN(t.id(p.Text)))
+	return fmt.Sprintf("{| mp_path := %s; mp_line := %s; mp_anchor_before := %s; mp_text := %s |}", c17Str(p.Path), coqZ(int64(p.Line)), coqBool(p.Before), coqN(t.id(p.Text)))
 }
 
 func c17RunRound(m *memCommenter, reps []c17Rep, showDups bool, change string) (rd c17Round, err error) {
